@@ -657,7 +657,12 @@ func (di *dynInterp) eval(f *ssa.Function, v ssa.Value, ins ssa.Instruction, get
 						return in
 					}
 					if ti := constant.ToInt(in.c); ti.Kind() == constant.Int {
-						return aval{k: avConst, c: ti} // an integral float converts exactly (also beyond int64: uint64(2^63))
+						// an integral float converts exactly (also beyond int64: uint64(2^63)) — when the target holds it; a
+						// value outside the target's range has no defined result in Go (implementation-specific): unknown
+						if !constant.Compare(wrapInt(ti, x.Type()), token.EQL, ti) {
+							return top
+						}
+						return aval{k: avConst, c: ti}
 					}
 					f, _ := constant.Float64Val(in.c)
 					return cInt(int64(f))
